@@ -23,6 +23,7 @@ import random
 import time
 
 import c11_peg
+import c11_refparse
 import common
 import mcnpref
 from common import cstr, clist, cpair, cz, cn, copt, cbool
@@ -34,6 +35,7 @@ THEOREMS = ['C11_inverse_den', 'C11_inverse_complcell_rejects',
             'C11_layout_exists', 'C11_pipeline',
             'C11_parse_psem', 'C11_accepted_iff',
             'C11_nested_rejected', 'C11_colon_hash_rejected',
+            'C11_parse_sound', 'C11_get_ast_sound_partial',
             'C11_nested_refuted', 'C11_colon_hash_refuted']
 TRUSTED = [
     'hand-written model coq/C11/Model.v: lexer + pushdown precedence parser '
@@ -188,12 +190,35 @@ class BoolRef(mcnpref.Reference):
         return self.eval_expr(to_ref(e), sigma, sigma)
 
 
-OPAQUE = (7, 8, 9)      # cells referenced by #n in the parse sweep
+OPAQUE = (7, 18, 209)   # cells referenced by #n in the parse sweep
+
+
+CELLBASE = 1000000
+
+
+class OpaqueRef(BoolRef):
+    '''every cell n is a free Boolean variable (CELLBASE + n, None)'''
+
+    def __init__(self):
+        super().__init__({})
+
+    def in_cell(self, cid, p):
+        return p[(CELLBASE + cid, None)]
 
 
 def opaque_ref():
-    '''cells 7, 8, 9 are free Boolean variables (surfaces 107, 108, 109)'''
-    return BoolRef({n: ('s', 100 + n, None) for n in OPAQUE})
+    return OpaqueRef()
+
+
+def cellrefs(e, out):
+    if e[0] == '#c':
+        out.add(e[1])
+    elif e[0] in ('*', ':'):
+        cellrefs(e[1], out)
+        cellrefs(e[2], out)
+    elif e[0] in ('#', 'p'):
+        cellrefs(e[1], out)
+    return out
 
 
 def tree_eval(tree, sigma, cellval=None):
@@ -458,7 +483,8 @@ CORPUS = [
     ('1#(2)3', ('*', ('*', L(1), L(-2)), L(3))),
     ('(1:2)#(3)', ('*', (':', L(1), L(2)), L(-3))),
     ('#(1)(2)', ('*', L(-1), L(2))),
-    ('#5-1', ('*', ('^', 5), L(-1))),
+    ('#5-1', ('*', ('^', 5), L(-1))), ('#12', ('^', 12)),
+    ('#105 1', ('*', ('^', 105), L(1))), ('# 0012', ('^', 12)),
     ('1:(#5)', (':', L(1), ('^', 5))),
     # not expressions
     ('', None), (' ', None), ('1 :', None), (': 1', None), ('1 : : 2', None),
@@ -564,7 +590,9 @@ def sweep_expr(res, ref, e, text, out, origin):
                       cls=cls)
         return False
     at = sorted(atoms(e, set()), key=str)
-    cell_atoms = [(100 + n, None) for n in OPAQUE]
+    if (0, None) in at or any(a[0] == 0 for a in at):
+        return True             # surface 0: outside the property
+    cell_atoms = [(CELLBASE + n, None) for n in sorted(cellrefs(e, set()))]
     n_at = len(at) + len(cell_atoms)
     if n_at <= 10:
         assignments = itertools.product([False, True], repeat=n_at)
@@ -577,7 +605,7 @@ def sweep_expr(res, ref, e, text, out, origin):
         want = ref.holds(e, sigma)
         try:
             got = tree_eval(out[1], sigma,
-                            lambda n, s: s[(100 + n, None)])
+                            lambda n, s: s[(CELLBASE + n, None)])
         except KeyError as exc:     # a surface/facet the expression lacks
             got = f'undefined (tree refers to {exc})'
         if want != got:
@@ -595,6 +623,20 @@ def sweep_expr(res, ref, e, text, out, origin):
     return True
 
 
+def wellformed(res, ref, text, out, origin):
+    '''arbitrary text: when the independent reader (c11_refparse, written
+    from the manual) finds an expression, the property is checked on it; a
+    text it does not read but the implementation accepts is only counted.'''
+    e = c11_refparse.parse(text)
+    if e is not None:
+        sweep_expr(res, ref, e, text, out, origin + '-wellformed')
+    elif out[0] == 'ok':
+        res.count(origin + ':accepted-though-not-read-by-the-reference')
+        extra = res.extra.setdefault('accepted_not_wellformed_samples', [])
+        if len(extra) < 12:
+            extra.append(text)
+
+
 def run(res, tier, seed, proofs_ok):
     rng = random.Random(seed)
     quick = tier == 'quick'
@@ -604,7 +646,7 @@ def run(res, tier, seed, proofs_ok):
                 '(L=5 quick, 6 thorough) by fingerprints; explicit cases: '
                 'hand-written corpus, token soups (with +, two-digit numbers, '
                 'facets), every expression with <= 3 (quick) / 4 (thorough) '
-                'operands in 64 layouts (quick: 16 of them for three operands), random expressions (depth <= 5, '
+                'operands in 64 layouts (a sample of 16 / 8 of them for the largest size of the tier), random expressions (depth <= 5, '
                 'redundant parentheses, leading zeros) in random layouts, '
                 'their character mutations; cell tables (2-5 cells, acyclic, '
                 'lattice cells, dangling and cyclic references); cell cards. '
@@ -681,6 +723,7 @@ def run(res, tier, seed, proofs_ok):
             res.seen(text, nontrivial=nontrivial)
             res.count('exhaustive:' + (out[0] if out[0] == 'ok' else out[1]))
             total = (total + h_str(text) * h_res(out)) % FP_P
+            wellformed(res, ref, text, out, 'exhaustive')
         impl_fp[pre] = (acc, total)
         n_acc += acc
     timings['exhaustive-impl'] = time.time() - t0
@@ -716,6 +759,7 @@ def run(res, tier, seed, proofs_ok):
         text = ''.join(rng.choice(soup) for _ in range(rng.randint(2, 9)))
         out = impl_get_ast(text)
         explicit.add(text, out, 'soup')
+        wellformed(res, ref, text, out, 'soup')
         res.seen(text, nontrivial=out[0] == 'ok' or out[1] == 'EAttribute')
         res.count('soup:' + (out[0] if out[0] == 'ok' else out[1]))
     timings['soups'] = time.time() - t0
@@ -739,8 +783,12 @@ def run(res, tier, seed, proofs_ok):
                 pout = impl_get_ast(ptext)
                 explicit.add(ptext, pout, 'small-protected')
                 sweep_expr(res, ref, pe, ptext, pout, f'small{k}-protected')
-            # quick tier: 16 of the 64 layouts for three operands
-            some = layouts if (not quick or k < 3) else rng.sample(layouts, 16)
+            # all 64 layouts for <= 2 (quick) / <= 3 (thorough) operands, a
+            # sample of 16 / 8 of them for the largest size of the tier
+            if k < (3 if quick else 4):
+                some = layouts
+            else:
+                some = rng.sample(layouts, 16 if quick else 8)
             pick = rng.randrange(len(some))
             for j, lay in enumerate(some):
                 text = render(e, lay)
@@ -806,6 +854,7 @@ def run(res, tier, seed, proofs_ok):
         mtext = ''.join(chars)
         out = impl_get_ast(mtext)
         explicit.add(mtext, out, 'mutated')
+        wellformed(res, ref, mtext, out, 'mutated')
         res.seen(mtext, nontrivial=out[0] == 'ok')
         res.count('mutated:' + (out[0] if out[0] == 'ok' else out[1]))
     timings['random'] = time.time() - t0
